@@ -179,7 +179,45 @@ def superset(ctx, cfg, d, field, u0s, t0, t1, tol, dt0):
         x = float(t0 + (t1 - t0) * rng.uniform(0.1, 0.9))
         extra += [x, x + 5e-10]  # separated by less than eps
     B = sorted(set(A + [x for x in extra if t0 + 1e-7 < x < t1 - 1e-7]))
+    _superset_compare(ctx, cfg, d, field, u0s, t0, t1, tol, dt0, objs, A, B, solA, [t0, *ends, t1])
+
+
+def tiny_offset_bound(cfg, A, B, grid, eps_arg=1e-8):
+    """D11 (known finding): a smoother's interpolation over a sub-interval that is a tiny fraction r of its step (but longer
+    than eps) un-preconditions a backward gain with T(r h): rounding errors of its lower triangle are amplified by r^-(i-j).
+    Returns an upper estimate 100 eps r^-(q+1) of the relative perturbation of *earlier* smoothed checkpoints, for the
+    smallest r in (1e-8, 1) among the extra checkpoints of B (distance to the interpolation origin = previous step end or
+    previous checkpoint, and to the next step end), and that r."""
+    if cfg.strategy == "filter":
+        return 0.0, None
+    worst, rmin = 0.0, None
+    grid = sorted(grid)
+    for x in B:
+        if x in A:
+            continue
+        lo = max(g for g in grid if g <= x)
+        hi = min(g for g in grid if g > x) if any(g > x for g in grid) else x
+        h = hi - lo
+        if h <= 0:
+            continue
+        prev = max([lo] + [b for b in B if b < x])
+        for dist in (x - prev, hi - x):
+            if dist <= eps_arg:
+                continue  # the at-step-end branch (no interpolation) / beyond the window
+            r = dist / h
+            if 1e-8 < r < 1.0:
+                bnd = 100 * 2.2e-16 * r ** -(cfg.q + 1)
+                if bnd > worst:
+                    worst, rmin = bnd, r
+    return worst, rmin
+
+
+def _superset_compare(ctx, cfg, d, field, u0s, t0, t1, tol, dt0, objs, A, B, solA, grid, corpus=False):
+    import jax
+
     solB = solve_save_at(objs, [t0, *B, t1], tol, dt0)
+    d11, rmin = tiny_offset_bound(cfg, A, B, grid)
+    d11 = min(d11, 0.05)  # never excuse an O(1) change
     case = {"config": cfg.key(), "field": field.describe(), "u0": [np.asarray(u).tolist() for u in u0s], "t0": t0, "t1": t1, "tol": tol, "dt0": dt0, "A": A, "B": B}
     sigp = f"superset:{cfg.fact}:{cfg.strategy}:{cfg.solver}:{cfg.lin}"
     idxA = [0] + [1 + i for i in range(len(A))] + [len(A) + 1]
@@ -196,6 +234,16 @@ def superset(ctx, cfg, d, field, u0s, t0, t1, tol, dt0):
             # smoothers propagate information backwards through gains whose conditioning grows like the Hilbert matrix of
             # order q (kappa up to ~1e9 for q = 4 with small steps): implementation-vs-implementation noise reaches 1e-7
             tm, tc_ = (1e-7, 1e-6) if cfg.strategy == "filter" else (1e-5, 1e-4)
+            if d11 > tm and (tm < dm <= d11 or tc_ < dc <= 10 * d11):
+                # explained by D11 (known finding; DESIGN 9.5): filed under its own signature, never under the generic one
+                ctx.devs["superset.tiny-offset.mean"] = max(ctx.devs.get("superset.tiny-offset.mean", 0.0), dm)
+                ctx.violation(
+                    "superset:smoother:tiny-offset-interpolation",
+                    f"smoothed mean / covariance at an earlier common checkpoint changes by {dm:.2e} / {dc:.2e} (relative to |m| + sd) when a checkpoint is added "
+                    f"at a fraction r = {rmin:.1e} of a step from its interpolation origin or step end (q = {cfg.q}; rounding amplified by r^-(q+1))",
+                    c,
+                )
+                continue
             ctx.dev("superset.mean", dm, tm, case=c, sig=f"{sigp}:mean", what=f"mean at a common checkpoint changes by {dm:.2e} when more checkpoints are requested")
             ctx.dev("superset.cov", dc, tc_, case=c, sig=f"{sigp}:cov", what=f"covariance at a common checkpoint changes by {dc:.2e} when more checkpoints are requested")
         nsa, nsb = int(np.asarray(solA.num_steps)[ia - 1] if ia > 0 else 0), int(np.asarray(solB.num_steps)[ib - 1] if ib > 0 else 0)
@@ -210,9 +258,13 @@ def superset(ctx, cfg, d, field, u0s, t0, t1, tol, dt0):
             ctx.dev("superset.output_scale", dev, 1e-7, case=dict(case, index_in_A=ia), sig=f"{sigp}:output_scale", what=f"output scale at a common checkpoint changes by {dev:.2e}")
     ctx.count(f"superset |A|={len(A)} |B|={len(B)}")
     ctx.case(dict(cfg.key(), d=d, mode="superset", nA=len(A), nB=len(B)))
+    if corpus:
+        return
+    rng = ctx.rng
     # terminal values = last entry
     import jax.numpy as jnp
     from probdiffeq import ivpsolve
+    from probdiffeq import probdiffeq as pdq
 
     err2 = pdq.error_residual_std(constraint=objs["constraint"])
     for clip in (False, True):
@@ -260,6 +312,31 @@ def offgrid(ctx, cfg, d, field, u0s, t0, t1, tol, dt0):
     ctx.case(dict(cfg.key(), d=d, mode="offgrid-vs-checkpoint"))
 
 
+def corpus_tiny_offset(ctx):
+    """Deterministic instance of D11 (found by seed 4 of the multi-seed sweep): isotropic fixed-point smoother, q = 4, TS1,
+    solver_mle; adding one checkpoint 1e-5 after the step end at t ~ 1.6953 changes the smoothed mean at t = 1.2645."""
+    from probdiffeq import probdiffeq as pdq
+    from probdiffeq.util import test_util
+
+    cfg = sm.Config(fact="iso", solver="mle", strategy="fixedpoint", lin="ts1", q=4, damp=0.0, init="exact", base_scale=None)
+    comps = [[(Fraction(5, 4), (1, 0, 0))], [(Fraction(-1), (0, 1, 0)), (Fraction(-3, 8), (1, 0, 0))]]
+    field = problems.PolyField(2, 1, comps)
+    u0s, t0, t1, tol, dt0 = [np.array([-0.75, 1.0])], 0.0, 2.0, 0.0005922485175331622, 0.7
+    objs = sm.build(cfg, field, u0s, t0)
+    oe = sm.build(dataclasses.replace(cfg, strategy="filter"), field, u0s, t0)
+    err = pdq.error_residual_std(constraint=oe["constraint"])
+    ste = test_util.solve_adaptive_save_every_step(oe["solver"], err, clip_dt=False)(oe["prior"], t0, t1, atol=tol, rtol=tol, dt0=dt0)
+    ends = [float(x) for x in np.asarray(ste.t)[1:-1] if t0 < x < t1]
+    A = [1.264504871050074]
+    later = [e for e in ends if e > 1.5]
+    if not later:
+        ctx.skip("corpus D11: step history changed (no step end after 1.5)")
+        return
+    B = sorted(A + [later[0] + 1e-5])
+    solA = solve_save_at(objs, [t0, *A, t1], tol, dt0)
+    _superset_compare(ctx, cfg, 2, field, u0s, t0, t1, tol, dt0, objs, A, B, solA, [t0, *ends, t1], corpus=True)
+
+
 def run(ctx):
     import warnings
 
@@ -273,6 +350,7 @@ def run(ctx):
         "several inside one step, pairs closer than eps); terminal-value routine; off-grid marginals; all strategies x factorisations x calibration modes"
     )
     ctx.assumptions += ["as C02; clipping off for the superset comparison (the property's premise)"]
+    corpus_tiny_offset(ctx)
     n = ctx.n(12, 160)
     for it in range(n):
         strat = ["filter", "fixedpoint", "fixedinterval"][it % 3]
